@@ -100,12 +100,7 @@ func runPropertyRaw(prop, tier string, forBaseline bool) *Report {
 		inBase[n] = true
 	}
 	generated := map[string]bool{}
-	claimOf := func(name string) string {
-		if k := strings.LastIndex(name, "@"); k >= 0 {
-			return name[:k]
-		}
-		return name
-	}
+	claimOf := claimName
 	violated := map[string][]*Obligation{}
 	violatedRes := map[string]*FuncResult{}
 	var violatedOrder []string
@@ -314,3 +309,11 @@ func writeEvidence(rep *Report) {
 }
 
 func round3(f float64) float64 { return float64(int(f*1000+0.5)) / 1000 }
+
+// claimName: obligation name without instance ordinal and conjunct number.
+func claimName(name string) string {
+	if k := strings.LastIndex(name, "@"); k >= 0 {
+		return name[:k]
+	}
+	return name
+}
